@@ -5,6 +5,30 @@ import json, os
 HERE = os.path.dirname(os.path.dirname(os.path.abspath(__file__)))
 
 CHECKS = {
+ "C02": dict(technique="Hypothesis PBT: constructed U0.B0 factorisations, round trips against the generating values and the definition UBI.UBI'=G",
+    text="Generated rotations (uniform quaternions, near-singular Euler, axis-aligned, products) x cells x hkl; UB matrices are constructed from a known (U0,B0) so uniqueness of the QR split is checked against the generating pair, not against the function itself. 10k cases quick / 480k thorough, tolerance 1e-9 (measured 2e-12).",
+    note="Trusted: numpy inv/cond; cond(B0) < 1e6 as the property states.", ref="4/C02"),
+ "C03": dict(technique="Hypothesis PBT: constructors vs products of independently written elementary rotations; inverses by rebuild within 1e-6 with heavy near-gimbal weighting",
+    text="All six constructors over all real angles (checks off for out-of-range Euler angles) compared at 1e-12 with elementary-rotation products; u_to_euler/u_to_rod on proper rotations incl. PHI exactly 0/pi, PHI 1e-12..1e-3 from them, axis-aligned matrices, products leaving [-1,1] by an ulp and float32-rounded rotations, rebuilt within the property's 1e-6. 30k cases quick, 1.6M thorough.",
+    note="For float32-rounded (not exactly proper) inputs the rebuild tolerance adds the input's distance from SO(3) amplified by 1/sin(PHI); rotation angles within 1e-4 deg of 180 are excluded for u_to_rod (property: 1e-6 deg; the trace cannot resolve closer).", ref="4/C03"),
+ "C09": dict(technique="Hypothesis PBT: diffraction condition evaluated with the solver's own matrix builder, trigonometric existence criterion for completeness, cross-solver agreement",
+    text="Every returned (omega, eta) of the four solvers in both modules is substituted back (x = -sin^2 theta, (y,z) from eta) at 1e-9; the number of solutions is compared with the existence criterion |rhs| < amplitude obtained from M(0)g, M(pi/2)g, M(pi)g (tangency band 1e-6 excluded); agreement at coinciding tilts; tth/tth2 vs the metric oracle. 20k cases quick (31% with both tilts non-zero), 960k thorough.",
+    note="find_omega_wedge is judged with Ry(-wedge).Rz(omega) as the property states.", ref="4/C09"),
+ "C10": dict(technique="Hypothesis PBT: independent ray/plane intersection oracle",
+    text="det_coor and det_coor2 are compared with each other and with an independently computed intersection of the ray t+s.v with the tilted detector plane; detector_to_lab of the pixel must lie on the ray (s>0) and in the plane. 20k cases quick, 960k thorough.",
+    note="Trusted: elementary rotations in vlib; tolerance 1e-7 pixel-relative / 1e-9 x distance.", ref="4/C10"),
+ "C11": dict(technique="exhaustive enumeration (81 orientations x 64 shapes x every pixel) + Hypothesis PBT for large non-square detectors, real coordinates and (eta, radius)",
+    text="Exhaustive over all 81 matrices, shapes 1..8 x 1..8, every pixel, both directions: acceptance/rejection, exact inverse pairs for trans_orientation / image_flipping, xy_to_detyz lands where trans_orientation stores the pixel, detyz_to_xy is its inverse. Generated: sizes up to 3000x3000, real coordinates, eta/radius round trips.",
+    note="radius >= 1.000001 (rounding margin at the exact boundary 1); eta compared modulo 360 with an arccos-conditioning-aware tolerance.", ref="4/C11"),
+ "C12": dict(technique="exhaustive group-axiom check of the 7 operator tables + Hypothesis metamorphic relations on Umis",
+    text="All operators and ordered pairs of the 7 systems: order, integrality, unimodularity, closure, duplicates, orthonormality, cache equality, out-of-range rejection. Generated: pairing rot.B.perm=B for conforming cells (both B conventions), Umis equals the independently computed rotation angles (through cosines, 1e-12), multiset invariance under symmetry-equivalents, common rotation, swap; Umis(U,U) contains 0.",
+    note="Angles compared via cosines because arccos is ill-conditioned at 0/180.", ref="4/C12"),
+ "C13": dict(technique="Hypothesis PBT: inverse pairs plus the definition sym(B0.inv(B))-I computed independently",
+    text="epsilon_to_b/b_to_epsilon and the _old pair as mutual inverses, zero strain, definition, upper-triangularity, and ubi_to_u_and_eps on the module's own UBI convention. 10k cases quick, 640k thorough. Known finding K2 (tools strain off by 2pi) is matched by exact signature only.",
+    note="K2 is reported as KNOWN-FINDING only when eps_returned = 2pi(e+I)-I within 1e-8 AND the function is right for UBI/2pi; any other deviation is a violation.", ref="4/C13"),
+ "C16": dict(technique="exhaustive table check (94 elements x 2001-point grid, analytic monotonicity) + Hypothesis point-wise checks",
+    text="Every table entry: f(0)=Z within 0.1 against an independent Z list, positivity and strict decrease on [0,2] (analytically where all a_i*b_i>0, grid + Lipschitz bound otherwise), FormFactor equals the nine-coefficient formula to 1e-13.",
+    note="Exhaustive over the finite table; continuous s covered by grid + derivative bound.", ref="4/C16"),
  "C01": dict(technique="Hypothesis property-based testing against an independent metric-tensor oracle",
     text="Generated-input search (20k cases quick, 800k thorough) over the whole stated cell domain incl. the Gram=0.02 boundary; every case compares A, B, volume, sintl, cell_invert and the inverse maps of both modules with the metric tensor written from its definition at 1e-9 relative. Exploration, not proof: it never establishes absence, but any formula edit moves results by >=1e-3 on oblique cells, which make up >40% of cases.",
     note="Trusted: numpy linear algebra, Hypothesis generation; tolerances 1e-9/1e-8 (measured worst 2e-13).", ref="4/C01"),
